@@ -1253,18 +1253,16 @@ namespace
             return {};
         }
         auto val = params[1];
+        if (sqf::types::reaches_container(val, arr.get()))
+        { // Refuse before anything got changed (growing the array first would leave it grown)
+            runtime.__logmsg(err::ArrayRecursion(runtime.context_active().current_frame().diag_info_from_position()));
+            return {};
+        }
         if (static_cast<int>(arr->size()) <= index)
         {
             arr->resize(index + 1);
         }
-        auto oldval = (*arr)[index];
         (*arr)[index] = val;
-        if (sqf::types::reaches_container(val, arr.get()) || !arr->recursion_test())
-        {
-            (*arr)[index] = oldval;
-            runtime.__logmsg(err::ArrayRecursion(runtime.context_active().current_frame().diag_info_from_position()));
-            return {};
-        }
         return {};
     }
     value plus_array(runtime& runtime, value::cref right)
